@@ -77,6 +77,7 @@ class C08(InterpProp):
 
     def gen_case(self, rnd, tier):
         case = super().gen_case(rnd, tier)
+        case.payload['record_old'] = True     # the implementation-side `__old__` channel (oracle 3)
         n = self._n
         ops = case.payload['ops']
         execs = [i for i, op in enumerate(ops) if op[0] == 'exec']
